@@ -231,7 +231,7 @@ def _run(ctx):
     # ---- R1 wiring in the swap handler ---------------------------------------------------------------------------
     sv = P.val_call(swap, body, gb)
     offer_i = common.param_index_of_type(swap, "^%s$" % ctx.N.rx("Asset"))
-    sopts = [i - 1 for i in range(1, swap.body.arg_count + 1) if re.match(r"^std::option::Option<cosmwasm_std::\S*Decimal>$", swap.body.locals[i]["ty"])]
+    sopts = common.param_accesses(P, swap, r"^std::option::Option<cosmwasm_std::\S*Decimal>$")
     PR = "C:%s@%s:bb%d" % (pricing.path, swap.path, pbb)
     # belief / max_spread: by the message field they originate from (both entry paths)
     for label, arm in (("direct", pr.swap_direct), ("hook", pr.swap_hook)):
@@ -239,13 +239,13 @@ def _run(ctx):
         dv = P.val_call(disp, disp.body, callbb)
         names = {}
         for so in sopts:
-            rs = "|".join(sorted(ctx.roots(dv[4][so])))
+            rs = "|".join(sorted(so.arg_roots(ctx.R, dv)))
             mm = re.search(r"~Swap\.(belief_price|max_spread)$", rs)
             names[so] = mm.group(1) if mm else rs
         gnames = {}
         for so in sopts:
             for go in opts:
-                if set(ctx.roots(sv[4][go])) == {P_(swap, so)}:
+                if set(ctx.roots(sv[4][go])) == {so.root()}:
                     gnames[go] = names[so]
         if gnames.get(belief_i) != "belief_price" or gnames.get(spread_i) != "max_spread":
             r1.fail("C10.R1:%s:option-roles" % label, swap.path, common.span_of_block_term(swap, gb),
